@@ -425,6 +425,30 @@ func (v *PacketDslVisitorImpl) VisitInerObjectField(ctx *gen.InerObjectFieldCont
 		f := fld.(*model.Field)
 		subFields = append(subFields, f)
 	}
+	// a match field inside the nested object refers to a key field of the same object
+	for _, f := range subFields {
+		c, ok := f.Attr.(*model.MatchFieldAttribute)
+		if !ok {
+			continue
+		}
+		var keyField *model.Field
+		for _, k := range subFields {
+			if k.Name == c.MatchKeyField.Name {
+				keyField = k
+				break
+			}
+		}
+		if keyField == nil {
+			v.BinModel.AddSyntaxError(&model.SyntaxError{
+				Line:            ctx.GetStart().GetLine(),
+				Column:          ctx.GetStart().GetTokenSource().GetCharPositionInLine(),
+				Msg:             "Unknown match key field " + c.MatchKeyField.Name + " for match field " + f.Name,
+				OffendingSymbol: nil,
+			})
+			continue
+		}
+		c.MatchKeyField = keyField
+	}
 	// Construct nested Packet model
 	p := model.Packet{
 		Name:   name,
